@@ -6,13 +6,17 @@
 //	O  the Lean model (oracle_c19, GocoinV.Model.Qdb);
 //	R  a plain Go map + the durability predicate (ref.go) — the property itself, independent of the model.
 //
-// After every request W's reply (result, DataSeq/VersionSequence/DatfileIndex/space counters/#pending, directory
-// listing name:size) must equal O's; after every state-changing request `count` and `peek` (BrowseAll) are compared
-// with R and O. With snapshots on, W copies the directory at every vhook.Point inside sync/defrag/writedatfile/
-// checklogfile/cleanupold (copy ≡ kill: completed syscalls survive, bufio/bytes.Buffer contents are lost); every
-// snapshot is reopened by a second child (a fresh process, because open may os.Exit), R's durability predicate is
-// evaluated on it, a continuation probe (Put+Sync+Close+reopen) is run on it, and the sequence of recovered
-// states is compared with the model's recovered states over all prefixes of the model's effect list.
+// After every request W's reply (result, DataSeq/VersionSequence/DatfileIndex/space counters/#pending/#records not
+// in memory, directory listing name:size) must equal O's. `peek` (Count + BrowseAll) is compared with R and O: in a
+// DENSE case after every request (the observation then loads every record: nothing stays lazy), in a SPARSE case only
+// where the case itself says `peek` (checkpoints chosen by the generator), so that lazily loaded records survive to
+// Get / Put / Del / sync / defrag / Close (histogram keys `lazy:*` count what was really reached on the real code).
+// With snapshots on, W copies the directory at every vhook.Point inside sync/defrag/writedatfile/checklogfile/
+// cleanupold/loaddat/loadlog (copy ≡ kill: completed syscalls survive, bufio/bytes.Buffer contents are lost); every
+// snapshot is reopened by a second child process (open may os.Exit; see recoveryPolicy for how often that process is
+// replaced by a new one), R's durability predicate is evaluated on it, a continuation probe (Put+Sync+Close+reopen) is
+// run on it, and the sequence of recovered states is compared with the model's recovered states over all prefixes of
+// the model's effect list.
 package main
 
 import (
@@ -106,8 +110,11 @@ func (p *proc) lastErr() string {
 
 var W, R *proc
 
+var retiredSpent = map[**proc]time.Duration{} // time spent in processes that were replaced
+
 func fresh(p **proc) {
 	if *p != nil {
+		retiredSpent[p] += (*p).spent
 		(*p).stop()
 	}
 	*p = startProc()
@@ -115,10 +122,19 @@ func fresh(p **proc) {
 
 // ---------------------------------------------------------------- one case
 type caseT struct {
-	Name  string   `json:"name"`
-	Snap  bool     `json:"snap"`
-	Lines []string `json:"lines"`
+	Name   string   `json:"name"`
+	Snap   bool     `json:"snap"`
+	Lines  []string `json:"lines"`
+	Sparse bool     `json:"sparse"` // observe the full content only where the case says `peek`
 }
+
+// recoveryPolicy: how long one recovery process R lives. "snapshot": a new process for every directory snapshot
+// (nothing a previous recovery left in the package's memory can help the next one); "case": a new process for every
+// case (and whenever one died). Process start costs ≈ 5 ms, a case has ≈ 80 snapshots: per-snapshot is used for the
+// corpus and the first generated cases of the thorough tier, per-case everywhere else; the counts go to the evidence.
+var recoveryPolicy = "case"
+var recoveriesFreshProc, recoveriesReusedProc int
+var rUsed bool // R has served a recovery since it was started
 
 func dedup(xs []string) []string {
 	var out []string
@@ -200,8 +216,14 @@ func runCase(c caseT) bool {
 		W.ask("snap 0")
 	}
 	lines := append([]string{}, c.Lines...)
-	upto := func(i int) caseT { return caseT{c.Name, c.Snap, lines[:i+1]} }
+	upto := func(i int) caseT { return caseT{c.Name, c.Snap, lines[:i+1], c.Sparse} }
 	desync, tailed, crashed := false, false, false
+	if rUsed || R.dead {
+		fresh(&R)
+		rUsed = false
+	}
+	prevNl, prevPe := 0, 0 // #records not in memory / #pending after the previous request (real store)
+	listing := ""          // directory listing after the previous request / at the crash point the case continues from
 	leaveModel := func(i int) {
 		desync = true
 		tieFails++
@@ -268,6 +290,8 @@ func runCase(c caseT) bool {
 					return false
 				}
 				r.Hit("crashat@" + strings.Fields(wr)[1])
+				_, st := splitRes(wr)
+				listing = strings.TrimPrefix(st, "files=")
 				if !desync {
 					r.TieOK()
 				}
@@ -278,6 +302,14 @@ func runCase(c caseT) bool {
 			continue
 		}
 		ref.before(t)
+		if op == "open" {
+			if strings.Contains(listing, "qdbidx.0:") && strings.Contains(listing, "qdbidx.1:") {
+				r.Hit("open:two-index-files-present")
+			}
+			if strings.Contains(listing, "qdbidx.log:") {
+				r.Hit("open:log-present")
+			}
+		}
 		wr, alive := W.ask(line)
 		or := ""
 		if !desync {
@@ -308,9 +340,34 @@ func runCase(c caseT) bool {
 				}
 			}
 		}
+		// what was reached on the REAL store while some records were not in memory
+		nl, pe := stateNum(wstate, " nl="), stateNum(wstate, " pe=")
+		if prevNl > 0 {
+			switch op {
+			case "get":
+				if nl < prevNl {
+					r.Hit("lazy:get-loads-record")
+				}
+			case "put", "putext", "del", "flags", "browse", "nosync":
+				r.Hit("lazy:" + op + "-with-unloaded-records")
+			case "sync", "defrag":
+				if prevPe > 0 || op == "defrag" {
+					r.Hit("lazy:" + op + "-with-unloaded-records")
+				}
+			case "close":
+				r.Hit("lazy:close-with-unloaded-records")
+			}
+		}
+		if op == "open" && nl > 0 {
+			r.Hit("lazy:open-leaves-records-unloaded")
+		}
+		prevNl, prevPe = nl, pe
+		if j := strings.Index(wstate, "files="); j >= 0 {
+			listing = wstate[j+6:]
+		}
 		// crash points of this request
 		if c.Snap && op != "count" {
-			ok, tie := crashCheck(caseT{c.Name, c.Snap, lines}, i, t, ref, desync)
+			ok, tie := crashCheck(caseT{c.Name, c.Snap, lines, c.Sparse}, i, t, ref, desync)
 			if !ok && !tie {
 				return false
 			}
@@ -318,13 +375,34 @@ func runCase(c caseT) bool {
 				leaveModel(i)
 			}
 		}
-		if !crashed { // (after a crash the recovered content is adopted at the observation below; that is a sync point)
+		if !crashed {
 			ref.save()
 			ref.after(t, wstate)
+		} else if op == "open" {
+			// first NewDBExt after a crash: the content it came up with must satisfy the durability rule, and the history
+			// goes on from it (that is a sync point). It is read WITHOUT touching W — the recovery process opens a copy of
+			// W's directory — so that records W has not loaded stay unloaded; everything W shows later (Get, Browse, peek)
+			// is checked against the content adopted here.
+			crashed = false
+			wd, _ := W.ask("dir")
+			rec, alive := recoverDir("recover " + wd)
+			if !alive {
+				propFail("prop:open:after-crashat", fmt.Sprintf("request %d %q after a crash: the directory the store continued on does not open in a new process (%s)", i, short(line), R.lastErr()), upto(i))
+				fresh(&R)
+				return false
+			}
+			bad := ref.durable(rec)
+			if bad == "" {
+				bad = ref.adopt(rec)
+			}
+			if bad != "" {
+				propFail("prop:durable:crashat", fmt.Sprintf("request %d %q after a crash: %s", i, short(line), bad), upto(i))
+				return false
+			}
 		}
-		// observation after every step: Count and the full content (BrowseAll)
+		// observation: Count and the full content (BrowseAll) — after every request of a dense case
 		nextDies := i+1 < len(lines) && strings.HasPrefix(lines[i+1], "crashat") // (a read would replace the crash points)
-		if op != "close" && op != "count" && op != "peek" && !nextDies {
+		if !c.Sparse && !crashed && op != "close" && op != "count" && op != "peek" && !nextDies {
 			q := "peek"
 			qr, alive := W.ask(q)
 			qo := ""
@@ -336,19 +414,8 @@ func runCase(c caseT) bool {
 				fresh(&W)
 				return false
 			}
-			qres, _ := splitRes(qr)
-			if crashed { // first observation after a crash + reopen: the durability rule, then the history goes on from it
-				crashed = false
-				rec := "ok:" + strings.TrimSpace(qres[strings.IndexByte(qres, ' ')+1:])
-				bad := ref.durable(rec)
-				if bad == "" {
-					bad = ref.adopt(rec)
-				}
-				if bad != "" {
-					propFail("prop:durable:crashat", fmt.Sprintf("request %d %q after a crash: %s", i, short(line), bad), upto(i))
-					return false
-				}
-			}
+			qres, qstate := splitRes(qr)
+			prevNl, prevPe = stateNum(qstate, " nl="), stateNum(qstate, " pe=")
 			if bad := ref.check([]string{q}, qres); bad != "" {
 				propFail("prop:"+q, fmt.Sprintf("%s after request %d %q: %s", q, i, short(line), bad), upto(i))
 				return false
@@ -372,9 +439,42 @@ func runCase(c caseT) bool {
 
 var crashPoints, crashStatesDistinct int
 
+// recoverDir sends one recover / probe request to the recovery process, replacing the process first when the policy
+// says so (or when it is dead).
+func recoverDir(cmd string) (string, bool) {
+	if R.dead || (recoveryPolicy == "snapshot" && rUsed) {
+		fresh(&R)
+		rUsed = false
+	}
+	if rUsed {
+		recoveriesReusedProc++
+	} else {
+		recoveriesFreshProc++
+	}
+	rUsed = true
+	return R.ask(cmd)
+}
+
+// stateNum reads a decimal field (" nl=", " pe=") of a state string; 0 when absent.
+func stateNum(state, field string) int {
+	i := strings.Index(" "+state, field)
+	if i < 0 {
+		return 0
+	}
+	rest := (" " + state)[i+len(field):]
+	n := 0
+	for _, ch := range rest {
+		if ch < '0' || ch > '9' {
+			break
+		}
+		n = n*10 + int(ch-'0')
+	}
+	return n
+}
+
 // crashCheck evaluates every snapshot W took during request i. ok=false, tie=true: only the model disagreed.
 func crashCheck(c caseT, i int, t []string, ref *refT, desync bool) (ok bool, tie bool) {
-	upto := caseT{c.Name, c.Snap, c.Lines[:i+1]}
+	upto := caseT{c.Name, c.Snap, c.Lines[:i+1], c.Sparse}
 	snaps, _ := W.ask("crash")
 	var real []string
 	if snaps == "" {
@@ -384,14 +484,11 @@ func crashCheck(c caseT, i int, t []string, ref *refT, desync bool) (ok bool, ti
 		for _, s := range strings.Split(snaps, ";") {
 			eq := strings.IndexByte(s, '=')
 			tag, path := s[:eq], s[eq+1:]
-			if R.dead {
-				fresh(&R)
-			}
 			cmd := "probe "
 			if tag == "before" {
 				cmd = "recover "
 			}
-			rep, alive := R.ask(cmd + path)
+			rep, alive := recoverDir(cmd + path)
 			crashPoints++
 			r.Hit("crash@" + tag)
 			rec, pr := rep, ""
@@ -399,8 +496,7 @@ func crashCheck(c caseT, i int, t []string, ref *refT, desync bool) (ok bool, ti
 				rec, pr = rep[:bar], rep[bar+1:]
 			}
 			if !alive && cmd == "probe " { // did the plain reopen already fail?
-				fresh(&R)
-				rec, alive = R.ask("recover " + path)
+				rec, alive = recoverDir("recover " + path)
 				if alive {
 					pr, alive = "(process died)", true
 				}
@@ -463,11 +559,11 @@ func main() {
 	defer func() { W.stop(); R.stop() }()
 
 	r.Assume = []string{
-		"crash = process kill: every completed system call survives, user-space buffers (bufio, bytes.Buffer) are lost; no torn or reordered writes, no power loss (fsync is not modelled)",
+		"crash = process kill at a system-call boundary: every completed system call survives entirely, an interrupted one has not happened, user-space buffers (bufio, bytes.Buffer) are lost; a write(2) torn inside (SIGKILL between two pages of a multi-page write), reordered writes and power loss are outside (fsync is not modelled)",
 		"one process uses the directory; the harness waits for db.Mutex after every call, so Put's asynchronous sync has finished before the next call",
 		"keys and values are not mutated by the caller after Put / Get (the store keeps the caller's slice)",
 		"NewDBExt without WalkFunction; Browse walk functions return flags but never BR_ABORT in the model comparison (BR_ABORT is exercised against the Go map only)",
-		"files stay below 4 GiB (datpos is a uint32)",
+		"files stay below 4 GiB (datpos is a uint32); index snapshots stay below 1 MiB (at most a few records per case; the theorems' bound is 43 690 records, client/peersdb allows 70 000)",
 	}
 
 	if r.Replay != "" {
@@ -475,7 +571,9 @@ func main() {
 		finish()
 		return
 	}
-	n := 0
+	if r.Thorough() {
+		recoveryPolicy = "snapshot"
+	}
 	for _, c := range corpus() {
 		if propFound || os.Getenv("VERIF_C19_NOCORPUS") != "" { // (self-test of the generator alone)
 			break
@@ -483,12 +581,20 @@ func main() {
 		r.Eval("corpus", c.Name)
 		r.Sample(map[string]interface{}{"corpus": c.Name, "lines": len(c.Lines), "first": firstLines(c, 6)})
 		runCase(c)
-		n++
 	}
 	g := r.Rng
-	ncases := r.N(150, 4000)
-	for i := 0; i < ncases && !propFound && tieFails < 6; i++ {
+	ncases := r.N(110, 3600)
+	tf0 := tieFails // (the search for a concrete failing input goes on for six more disagreeing generated cases)
+	for i := 0; i < ncases && !propFound && tieFails-tf0 < 6; i++ {
+		if i == freshPerSnapshotCases {
+			recoveryPolicy = "case"
+		}
 		c := genCase(g.Fork(), i)
+		if c.Sparse {
+			r.Hit("case:sparse-observation")
+		} else {
+			r.Hit("case:dense-observation")
+		}
 		r.Eval("generated", strings.Join(c.Lines, "\n"))
 		if i < 4 {
 			r.Sample(map[string]interface{}{"generated": c.Name, "lines": len(c.Lines), "first": firstLines(c, 8)})
@@ -499,6 +605,9 @@ func main() {
 	abortStream(g.Fork(), r.N(20, 200))
 	finish()
 }
+
+// in the thorough tier the corpus and this many generated cases get a new recovery process for EVERY snapshot
+const freshPerSnapshotCases = 150
 
 func firstLines(c caseT, n int) []string {
 	var out []string
@@ -514,14 +623,17 @@ func firstLines(c caseT, n int) []string {
 func finish() {
 	r.Extra["crash_points_evaluated"] = crashPoints
 	r.Extra["recovered_states_distinct_per_request_sum"] = crashStatesDistinct
-	r.Extra["seconds_in_impl_worker"] = W.spent.Seconds()
-	r.Extra["seconds_in_recovery_worker"] = R.spent.Seconds()
+	r.Extra["seconds_in_impl_worker"] = (retiredSpent[&W] + W.spent).Seconds()
+	r.Extra["seconds_in_recovery_worker"] = (retiredSpent[&R] + R.spent).Seconds()
+	r.Extra["recoveries_in_a_new_process"] = recoveriesFreshProc
+	r.Extra["recoveries_in_a_process_that_had_recovered_before"] = recoveriesReusedProc
+	r.Extra["recovery_process_policy"] = "thorough: a new recovery process for every snapshot of the corpus and of the first 150 generated cases, then one per case; quick: one per case (and whenever one died)"
 	r.Extra["exhaustive"] = false
 	r.Extra["crash_enumeration"] = "for every generated/corpus sequence with snapshots on: every vhook.Point hit inside every request (all points x all hits) + before/after; not exhaustive over sequences"
 	W.stop()
 	R.stop()
 	r.Finish(
-		"a case is a request sequence (open options, puts/deletes/gets/browses/flag changes/sync/nosync/defrag/close+reopen over 2..6 keys); distinct = distinct request text; every request is one model-vs-impl comparison, every state-changing request is followed by count+peek compared with a Go map and the model, every vhook.Point hit is one crash evaluation",
+		"a case is a request sequence (open options, puts/deletes/gets/browses/flag changes/sync/nosync/defrag/close+reopen over 2..6 keys); distinct = distinct request text; every request is one model-vs-impl comparison (incl. the number of records not in memory); count+peek (full content, compared with a Go map and the model) follows every request of a dense case and stands at generator-chosen checkpoints of a sparse case; every vhook.Point hit is one crash evaluation",
 		"Real qdb (child process) vs Lean model Model/Qdb.lean vs plain Go map; durability predicate evaluated on directory snapshots at every crash point and compared with the model's recovery of every prefix of its effect list.")
 }
 
